@@ -77,6 +77,17 @@ fn next_borrowed<'r, 'a: 'r, T: Next<&'r U> + Default, U: 'a>(u: &'r U) -> <T as
     T::default().next(u)
 }
 
+/// the HIGHER-RANKED form: `T: for<'r> Next<&'r U>` for a bar type `U` that is not `'static` (a generic driver that keeps
+/// an indicator and is handed bars of arbitrary lifetimes needs exactly this bound)
+fn next_higher_ranked<T, U>(u: &U)
+where
+    T: for<'r> Next<&'r U> + Default,
+{
+    let mut t = T::default();
+    let _ = t.next(u);
+    let _ = t.next(u);
+}
+
 macro_rules! all_indicators {
     ($m:ident) => {
         $m!(SimpleMovingAverage); $m!(ExponentialMovingAverage); $m!(WeightedMovingAverage); $m!(StandardDeviation);
@@ -105,6 +116,9 @@ pub fn borrowed_bars<'a>(row: &'a [f64; 5]) {
     // and the full view, for all 22
     macro_rules! full { ($t:ty) => { let _ = next_borrowed::<$t, RowView<'a>>(&all); }; }
     all_indicators!(full);
+    // the same through a higher-ranked bound, with the non-'static view type
+    macro_rules! full_hr { ($t:ty) => { next_higher_ranked::<$t, RowView<'a>>(&all); }; }
+    all_indicators!(full_hr);
     // a view created and dropped inside a loop over locally owned rows (the shortest possible lifetime)
     let table: Vec<[f64; 5]> = vec![*row; 3];
     let (mut atr, mut tr, mut kc, mut ce) = (AverageTrueRange::default(), TrueRange::default(), KeltnerChannel::default(), ChandelierExit::default());
